@@ -105,9 +105,23 @@ func hAttach(p *provider, meta objstorage.ObjectMetadata, origin objstorage.Crea
 // object; and once every holder has dropped its reference the object is gone.
 func VerifHarness_C41_Conc_SharedRefs() {
 	store := &hStore{objs: map[string]bool{}}
-	a, b := hProvider(1), hProvider(2)
+	// creator ids and local file numbers: distinct small ids, or ids where one's decimal
+	// representation is a suffix of the other's, with equal or different local file numbers
+	// (reference-marker names are built from them)
+	idA, idB := objstorage.CreatorID(1), objstorage.CreatorID(2)
+	if sym.Bool("suffix-related-ids") {
+		idA, idB = 2, 12
+	}
+	if sym.Bool("swap-ids") {
+		idA, idB = idB, idA
+	}
+	numB := base.DiskFileNum(20)
+	if sym.Bool("same-file-number") {
+		numB = 10
+	}
+	a, b := hProvider(idA), hProvider(idB)
 	metaA := objstorage.ObjectMetadata{DiskFileNum: 10, FileType: base.FileTypeTable}
-	metaA.Remote.CreatorID, metaA.Remote.CreatorFileNum = 1, 10
+	metaA.Remote.CreatorID, metaA.Remote.CreatorFileNum = idA, 10
 	metaA.Remote.CleanupMethod = objstorage.SharedRefTracking
 	metaA.Remote.Storage = store
 	objName := remoteObjectName(metaA)
@@ -115,7 +129,7 @@ func VerifHarness_C41_Conc_SharedRefs() {
 	sym.Assert(a.sharedCreateRef(metaA) == nil, "creator-reference")
 
 	metaB := metaA
-	metaB.DiskFileNum = 20 // B's own file number for the object
+	metaB.DiskFileNum = numB // B's own file number for the object
 	bUnrefs := sym.Bool("b-unrefs-later")
 
 	var attachErr error
@@ -125,7 +139,7 @@ func VerifHarness_C41_Conc_SharedRefs() {
 		done <- struct{}{}
 	}()
 	go func() {
-		attachErr = hAttach(b, metaB, 1, 10)
+		attachErr = hAttach(b, metaB, idA, 10)
 		if attachErr == nil && bUnrefs {
 			_ = b.sharedUnref(metaB)
 		}
@@ -135,7 +149,7 @@ func VerifHarness_C41_Conc_SharedRefs() {
 	<-done
 
 	objectExists := store.objs[objName]
-	bRef := store.objs[sharedObjectRefName(metaB, 2, 20)]
+	bRef := store.objs[sharedObjectRefName(metaB, idB, numB)]
 	if attachErr == nil && !bUnrefs {
 		sym.Assert(objectExists, "object-kept-while-an-attached-provider-holds-a-reference")
 		sym.Assert(bRef, "attached-provider-has-its-reference")
@@ -144,6 +158,6 @@ func VerifHarness_C41_Conc_SharedRefs() {
 		sym.Assert(!bRef, "failed-or-released-attach-leaves-no-reference")
 		sym.Assert(!objectExists, "object-deleted-once-unreferenced")
 	}
-	sym.Assert(!store.objs[sharedObjectRefName(metaA, 1, 10)], "creator-reference-gone")
+	sym.Assert(!store.objs[sharedObjectRefName(metaA, idA, 10)], "creator-reference-gone")
 	sym.Reach("shared-refs")
 }
